@@ -9,6 +9,83 @@ from harness.flag_family import direction
 PID = "C10"
 
 
+def lattice(h, w):
+    """the frame's graph in the order of GraphDefs!Lattice (= cspuz.graph._from_grid_frame): per point, down then right"""
+    edges = []
+    for y in range(h + 1):
+        for x in range(w + 1):
+            p = y * (w + 1) + x
+            if y != h:
+                edges.append([p, p + w + 1])
+            if x != w:
+                edges.append([p, p + 1])
+    return {"n": (h + 1) * (w + 1), "edges": edges}
+
+
+def wide_frame_jobs(chk, tier, seed, rng):
+    """non-square frames too large to enumerate (2x3, 3x2, 2x4 ...): segment sets built from rectangle outlines (their
+    symmetric differences are exactly the drawings in which every point has even degree: loops, figure-eights, several
+    loops), the same with one segment removed (open paths) or added, judged by TLC (Trace_Patterns, frame mode)"""
+    from harness.common import write_ndjson
+    from harness.tlc import run_tlc, MachineryError
+    shapes = [(2, 3), (3, 2)] if tier == "quick" else [(2, 3), (3, 2), (2, 4), (4, 2), (3, 3)]
+    recs, objs = [], {}
+    for (h, w) in shapes:
+        g = lattice(h, w)
+        objs[(h, w)] = {"kind": "frame", "name": "frame", "h": h, "w": w, "graph": g}
+        index = {tuple(e): k for k, e in enumerate(g["edges"])}
+        rects = []
+        for y0 in range(h + 1):
+            for y1 in range(y0 + 1, h + 1):
+                for x0 in range(w + 1):
+                    for x1 in range(x0 + 1, w + 1):
+                        es = set()
+                        for x in range(x0, x1):
+                            es.add(index[(y0 * (w + 1) + x, y0 * (w + 1) + x + 1)])
+                            es.add(index[(y1 * (w + 1) + x, y1 * (w + 1) + x + 1)])
+                        for y in range(y0, y1):
+                            es.add(index[(y * (w + 1) + x0, (y + 1) * (w + 1) + x0)])
+                            es.add(index[(y * (w + 1) + x1, (y + 1) * (w + 1) + x1)])
+                        rects.append(frozenset(es))
+        pats = set()
+        for a in rects:
+            pats.add(a)
+            for b in rects:
+                pats.add(a ^ b)
+        pats = sorted((sorted(p) for p in pats if p), key=lambda p: (len(p), p))
+        rng.shuffle(pats)
+        pats = pats[: 120 if tier == "quick" else 1500]
+        extra = []
+        for p in pats[: len(pats) // 2]:
+            q = list(p)
+            q.remove(rng.choice(q))                      # an open path (or two)
+            extra.append(sorted(q))
+            free = [k for k in range(len(g["edges"])) if k not in p]
+            if free:
+                extra.append(sorted(p + [rng.choice(free)]))
+        for p in pats + extra:
+            for cyc in (False, True):
+                recs.append({"t": len(recs), "kind": "frame", "h": h, "w": w, "cyc": cyc, "active": [k + 1 for k in p]})
+    path = chk.dir / "wide_patterns.ndjson"
+    write_ndjson(path, recs)
+    res = run_tlc("Trace_Patterns", "Trace_Patterns", workdir=chk.dir, env={"TRACE_FILE": str(path)}, timeout=3000, workers=8)
+    chk.add_tlc(res)
+    if len(res.records) != len(recs):
+        raise MachineryError("Trace_Patterns (frame mode) verdict count")
+    verdict = {v["t"]: v for v in res.records}
+    jobs = []
+    for r in recs:
+        v = verdict[r["t"]]
+        mask = lambda pts: sum(1 << q for q in pts)
+        jobs.append({"obj": objs[(r["h"], r["w"])], "id": 50000 + r["t"], "single_cycle": r["cyc"], "alias": bool(r["cyc"] and r["t"] % 2),
+                     "frameform": ["vars", "const", "mixed"][r["t"] % 3], "patterns": [sum(1 << (k - 1) for k in r["active"])],
+                     "expects": [v["ok"]], "passed": [mask(v["passed"])], "cross": [mask(v["cross"])]})
+    chk.extra["wide_frame_patterns"] = len(recs)
+    chk.extra["wide_frame_patterns_admitted"] = sum(1 for v in verdict.values() if v["ok"])
+    chk.traces += len(recs)
+    return jobs
+
+
 def run(tier, seed):
     chk = Check(PID, tier, seed)
     recs = GC.tlc_cases(chk, "cross", tier)
@@ -30,6 +107,7 @@ def run(tier, seed):
             zjobs.append(dict(base, patterns=ps, expects=[r["ok"][p] for p in ps],
                               passed=[r["passed"][p] for p in ps], cross=[r["cross"][p] for p in ps]))
         ejobs.append(dict(base, expects=r["ok"], passed=r["passed"], cross=r["cross"]))
+    zjobs += wide_frame_jobs(chk, tier, seed, rng)
     results = GC.pmap(GR.run_cross, zjobs)
     for job, mism in zip(zjobs, results):
         m = len(job["obj"]["graph"]["edges"])
@@ -68,7 +146,7 @@ def run(tier, seed):
     chk.sample({"obj": r["obj"], "single_cycle": r["single_cycle"], "admitted_patterns": [p for p in range(len(r["ok"])) if r["ok"][p]][:10]})
     chk.rule = "case = (frame, single_cycle, encoding, segment subset); non-trivial = at least 2 active segments"
     chk.exhaustive = tier != "quick"
-    chk.extra["space"] = "frames up to 2x2 (quick: on 2x2 every admitted pattern + 500 sampled rejected ones per mode; thorough: all 4096, plus 1x3/3x1); both encodings; returned arrays judged through solve()"
+    chk.extra["space"] = "rectangle-outline drawings (loops, figure-eights, open paths, stray segments) on 2x3 / 3x2 (thorough: up to 3x3 / 2x4) judged by Trace_Patterns; frames up to 2x2 (quick: on 2x2 every admitted pattern + 500 sampled rejected ones per mode; thorough: all 4096, plus 1x3/3x1); both encodings; returned arrays judged through solve()"
     chk.extra["objects"] = len(recs)
     chk.assumptions = ["auxiliary-variable route by real z3; native route by TLC on the emitted program (57 variables on 2x2, all determined)"]
     return chk.finish()
